@@ -310,6 +310,8 @@ impl<'a> GeneratorState<'a> {
                                     return if return_tmp {
                                         Ok(ExprType::Tmp(f.return_signed))
                                     } else {
+                                        // The result is in the accumulator
+                                        self.acc_in_use = true;
                                         Ok(ExprType::A(f.return_signed))
                                     };
                                 }
